@@ -6,16 +6,19 @@ import (
 	"bufio"
 	"encoding/json"
 	"fmt"
+	"github.com/ja7ad/otp/internal/app/api"
 	"net/http"
 	"os"
 	"os/exec"
 	"path/filepath"
+	"reflect"
 	"runtime"
 	"sort"
 	"strings"
 	"sync"
 	"sync/atomic"
 	"time"
+	"unsafe"
 
 	"github.com/ja7ad/otp/verifharness/ev"
 	"github.com/ja7ad/otp/verifharness/irt"
@@ -888,6 +891,15 @@ func c19(r *ev.Run) {
 		xplore.Run(c.Choices, func(x *xplore.X) { o, bad = runFaultSchedule(c.Faults, x) })
 		return o, bad
 	})
+	r.Scenario("held-connections", func(raw []byte) (string, string) {
+		srv, err := startServer()
+		if err != nil {
+			return "", ""
+		}
+		defer srv.stop()
+		n, bad := heldConnections(srv.addr, unjson[map[string]int](raw)["held"])
+		return fmt.Sprint(n), bad
+	})
 	r.Scenario("wire-sequence", func(raw []byte) (string, string) {
 		srv, err := startServer()
 		if err != nil {
@@ -1029,6 +1041,25 @@ func c19(r *ev.Run) {
 		}
 		r.Eval(wn)
 		r.Set("wire_level_sequences", wn)
+		// held connections: a client pool opens connections, gets one well-formed request answered on each and
+		// leaves them idle; every one of them - up to the service's own limit per client address, minus a margin for
+		// connections this check may still hold - and a further fresh connection must be served
+		if slow < 3 {
+			perIP, conc := serverLimits()
+			n := 40
+			if perIP > 12 {
+				n = perIP - 10
+			}
+			if n > 120 {
+				n = 120
+			}
+			nheld, bad := heldConnections(srv.addr, n)
+			r.Eval(int64(nheld))
+			r.Set("held_connections", map[string]any{"held": n, "then_fresh": 1, "service_limit_per_address": perIP, "service_worker_limit": conc})
+			if bad != "" {
+				r.Fail("held-connections", bad, map[string]int{"held": n}, "every connection below the service's own per-address limit is served", bad)
+			}
+		}
 		if !srv.alive() {
 			r.Fail("fault-sequence", "live: server process died", c19Case{}, "process alive", "exited")
 		}
@@ -1039,6 +1070,53 @@ func c19(r *ev.Run) {
 	r.Sample(map[string]any{"sequence": []string{fl[len(fl)/2].Name, "probe", fl[len(fl)/3].Name, "probe"}, "oracle": "every response complete with a consistent status; probes answer exactly as the reference says; <= 2*10^6 statements per request"})
 	r.Rule("fault alphabet = endpoints x {15 broken-JSON forms incl. 1 MiB of '[' and 12000-deep nesting; every field x 8 JSON types; numeric fields at and beyond 64-bit limits; empty/blank/NUL/lone-surrogate/1 MiB strings; missing required fields; 6 wrong methods} + skew/period/timestamp extremes + unknown/contradictory suites + unknown paths + /docs paths; explored as sequences fault,probe (depth 1, all classes, fresh and reused ctx) and fault,probe,fault,probe (depth 2 over a core; thorough: all pairs) in-process on the instrumented handler chain with a per-request statement budget; then the whole list against the real binary on loopback (keep-alive and fresh connections) with interleaved probes; state = digest of package-level state, transition = one request; distinct = distinct (status, work) observations")
 	r.Assume("a 500 produced by the recovery middleware is a complete failure response", "the 10 s guard of the loopback pass never yields a violation by itself (reported as a cap); work bounds are decided by the statement budget", "fasthttp's connection handling beyond keep-alive vs fresh is trusted")
+}
+
+// heldConnections opens n+1 connections one after the other, has one well-formed request answered on each and keeps
+// them all open; returns how many were opened and what went wrong (if anything).
+func heldConnections(addr string, n int) (opened int, bad string) {
+	pr := probes()
+	var held []*wireConn
+	defer func() {
+		for _, w := range held {
+			w.close()
+		}
+	}()
+	for k := 0; k <= n; k++ {
+		q := pr[k%len(pr)]
+		w, err := dialWire(addr)
+		if err != nil {
+			return len(held), fmt.Sprintf("connection %d of %d could not be opened while the others are idle: %s", k, n, strings.ReplaceAll(err.Error(), addr, "<server>"))
+		}
+		held = append(held, w)
+		now0 := time.Now().Unix()
+		if err := w.send(q); err != nil {
+			return len(held), fmt.Sprintf("connection %d of %d: request could not be written while %d connections are idle", k, n, k)
+		}
+		p, _, err := w.recv(q.Method)
+		if err != nil {
+			return len(held), fmt.Sprintf("connection %d of %d: a well-formed request got no complete response while %d connections (each served once) are idle (%v)", k, n, k, err)
+		}
+		if d := compareResp(q, restExpect(q, now0, time.Now().Unix()), p, nil); d != "" {
+			return len(held), fmt.Sprintf("connection %d of %d: a well-formed request is answered wrongly while %d connections are idle: %s (status %d, body %s)", k, n, k, d, p.Status, trunc80(p.Body))
+		}
+	}
+	return len(held), ""
+}
+
+// serverLimits reads the connection limits the service configures for itself (0, 0 when they cannot be read).
+func serverLimits() (perIP, concurrency int) {
+	defer func() { recover() }()
+	s, err := api.NewServer()
+	if err != nil || s == nil {
+		return 0, 0
+	}
+	f := reflect.ValueOf(s).Elem().FieldByName("srv")
+	if !f.IsValid() || f.Kind() != reflect.Pointer || f.IsNil() {
+		return 0, 0
+	}
+	fs := (*fasthttp.Server)(unsafe.Pointer(f.Pointer()))
+	return fs.MaxConnsPerIP, fs.Concurrency
 }
 
 // canonJSON re-renders a JSON body with object keys sorted and every array of strings sorted (lists the service
